@@ -289,12 +289,64 @@ def run(R):
         M.close()
     if R.shard == 0:
         deep_combs(R)
+        unchecked_routes(R)
     R.floor('maps_checked', 300 if quick else 3000)
     R.floor('unfit_keys_tried', 100)
     R.floor('post_set_int_key', 1000)
     R.floor('empty_maps', 3)
     R.floor('history_steps', 100)
     R.floor('history_transitions', 12, 'set')
+
+
+def unchecked_routes(R):
+    """the ways a key can get into a map without passing through set() / set_int_key(): the constructor's map_ argument and the public .map attribute; and the
+    Address key form when the address carries an anycast prefix (its encoding is longer than 267 bits).  Keys that do not fit must be refused, never aliased."""
+    from pytoniq_core.boc.hashmap.hashmap import HashMap
+    from pytoniq_core.boc.hashmap.parse import parse_hashmap
+    from pytoniq_core.boc.address import Address
+    rng = R.rng
+    for w in (1, 4, 8, 32, 64, 256):
+        bad_sets = [{-1: 7}, {1 << w: 1}, {-1: 7, 1: 5}, {0: 1, (1 << w) + 1: 2}, {-(1 << w): 3}]
+        for m in bad_sets:
+            for how in ('constructor', 'attribute'):
+                W = {'width': w, 'map': {str(k): v for k, v in m.items()}, 'route': how}
+
+                def make():
+                    if how == 'constructor':
+                        hm = HashMap(w, map_=dict(m)).with_uint_values(8)
+                    else:
+                        hm = HashMap(w).with_uint_values(8)
+                        hm.map.update(m)
+                    return hm.serialize()
+                st, cell = mon.call(make)
+                R.counters['oracle_evaluations'] += 1
+                R.count('unchecked_route_cases')
+                if st == 'ok':
+                    got = mon.call(lambda: sorted(int(k, 2) for k in parse_hashmap(cell.begin_parse(), w)))
+                    R.violation('accepted-key-via-map-argument', f'a map given through the {how} with keys {sorted(m)} at width {w} was serialised instead of refused; the cell parses to {mon.srepr(got, 60)}', W)
+                else:
+                    R.exc(cell)
+        good = {rng.randrange(1 << w): rng.randrange(256) for _ in range(5)}
+        st, back = mon.call(lambda: {int(k, 2): v.load_uint(8) for k, v in parse_hashmap(HashMap(w, map_=dict(good)).with_uint_values(8).serialize().begin_parse(), w).items()})
+        R.check(st == 'ok' and back == good, 'map-argument-roundtrip', f'a valid map given through the constructor does not round-trip at width {w}: {mon.srepr(back, 80)}', {'width': w})
+    for rep in range(6):
+        h = rng.randbytes(31)
+        a1, a2 = Address((0, h + b'\x01')), Address((0, h + b'\x02'))
+        depth = rng.choice([1, 3, 8, 30])
+        pfx = rng.getrandbits(depth)
+        a1.set_anycast(depth, pfx)
+        a2.set_anycast(depth, pfx)
+        W = {'anycast_depth': depth, 'hash_prefix': h}
+        hm = HashMap(267).with_uint_values(8)
+        st, e = mon.call(lambda: (hm.set(a1, 1), hm.set(a2, 2)))
+        R.count('anycast_address_key_cases')
+        R.counters['oracle_evaluations'] += 1
+        if st == 'exc':
+            R.exc(e)                 # refusing an address that does not fit 267 bits is what the property asks for
+            continue
+        st, back = mon.call(lambda: parse_hashmap(hm.serialize().begin_parse(), 267))
+        R.check(len(hm.map) == 2 and st == 'ok' and len(back) == 2, 'anycast-address-keys-aliased',
+                f'two different addresses with an anycast prefix of depth {depth} were accepted as keys of a 267-bit map and fell on {len(hm.map)} key(s)', W)
 
 
 def deep_combs(R):
